@@ -129,11 +129,24 @@ fn xor_case(rec: &mut Rec, ctx: &Ctx, idx: u64, rng: &mut ChaCha20Rng) {
   }
 }
 
+/// decrypt the share's encrypted message with a candidate sharing key (the
+/// adss share carries Enc_K(message); K is what the t shares interpolate to)
+fn open_share_message(k16: &[u8], c: &[u8]) -> Vec<u8> {
+  use strobe_rs::{SecParam, Strobe};
+  let mut s = Strobe::new(b"adss encrypt", SecParam::B128);
+  s.key(k16, false);
+  let mut m = c.to_vec();
+  s.recv_enc(&mut m, false);
+  m
+}
+
 fn window_case(rec: &mut Rec, _ctx: &Ctx, idx: u64, rng: &mut ChaCha20Rng) {
-  let t = rng.gen_range(2..=5u32);
+  // mostly small thresholds; every 6th case sits at / beyond the 7-bit boundary
+  let t = if idx % 6 == 5 { *pick(rng, &[127u32, 128, 129, 200]) } else { rng.gen_range(2..=5u32) };
   let m = rand_bytes_pick(rng, &[8usize, 16, 32, 64]);
   let e = crate::gen::epoch(rng);
   let al = *pick(rng, &[8usize, 9, 16, 31, 32, 64, 120, 200, 340, 700]);
+  let al = if t > 10 { al.min(64) } else { al };
   let auxes: Vec<Vec<u8>> = (0..t).map(|_| rand_bytes(rng, al)).collect();
   rec.evals += 1;
   rec.case(&("window", t, m.len(), al));
@@ -160,6 +173,19 @@ fn window_case(rec: &mut Rec, _ctx: &Ctx, idx: u64, rng: &mut ChaCha20Rng) {
   let ok = layout::parse_payload(&plain) == Some((m.clone(), Some(r0.aux.clone())));
   rec.control("true_key_decrypts", ok);
 
+  // calibration of the "window as sharing key" attacker: the TRUE sharing key
+  // (BigUint interpolation of the t share points) must open the share's
+  // encrypted message to the recovered key seed; otherwise no opinion
+  let parsed: Vec<layout::AdssShare> = reps.iter().filter_map(|r| Report::decode(&r.bytes)).map(|r| r.share).collect();
+  let mut sharing_key_attacker = false;
+  if parsed.len() == reps.len() && parsed.iter().all(|p| p.s.ys.len() == 1) {
+    let pts: Vec<(num_bigint::BigUint, num_bigint::BigUint)> = parsed.iter().map(|p| (p.s.x_int(), p.s.y_int(0))).collect();
+    if let Some(k) = crate::bigfield::lagrange_at_zero(&pts) {
+      let k24 = crate::bigfield::to_le24(&k);
+      sharing_key_attacker = open_share_message(&k24[..16], &parsed[0].c) == seed;
+    }
+  }
+  rec.ev(if sharing_key_attacker { "sharing_key_attacker_calibrated" } else { "sharing_key_attacker_has_no_opinion" });
   for (ri, r) in reps.iter().enumerate().take(2) {
     // M1: aux in the clear
     rec.ev("aux_scan");
@@ -188,6 +214,17 @@ fn window_case(rec: &mut Rec, _ctx: &Ctx, idx: u64, rng: &mut ChaCha20Rng) {
       rec.evals += 1;
       rec.ev("window_as_key");
       hit(rec, &b[off..off + 16], "16-byte window used as key", off);
+    }
+    if sharing_key_attacker {
+      for off in 0..b.len().saturating_sub(15) {
+        rec.ev("window_as_sharing_key");
+        let cand_seed = open_share_message(&b[off..off + 16], &parsed[ri].c);
+        if cand_seed.len() == 32 {
+          let mut k = vec![0u8; 16];
+          derive_ske_key(&cand_seed, &e, &mut k);
+          hit(rec, &k, "16-byte window used as sharing key", off);
+        }
+      }
     }
     for off in 0..b.len().saturating_sub(31) {
       rec.ev("window_as_seed");
